@@ -707,20 +707,50 @@ def split_ops(case_lines, impl_lines):
     return res
 
 
-_IGNORE_EMPTY = None
+_RESET_EXTCLIP = None
 
 
-def source_ignores_empty_requests():
-    """does rfbProcessClientNormalMessage return early on an empty FramebufferUpdateRequest (the
-    'ignore empty requests' repair of F4)?  Decided from the source text on every run."""
-    global _IGNORE_EMPTY
-    if _IGNORE_EMPTY is None:
+def source_resets_extclip():
+    """does the SetEncodings handler reset enableExtendedClipboard together with the other flags
+    (repair of F21)?  Decided from the source text on every run."""
+    global _RESET_EXTCLIP
+    if _RESET_EXTCLIP is None:
         try:
             txt = open(os.path.join(vlib.REPO, "src", "libvncserver", "rfbserver.c"), errors="replace").read()
         except OSError:
             txt = ""
-        _IGNORE_EMPTY = bool(re.search(r"msg\.fur\.w\s*==\s*0\s*\|\|\s*msg\.fur\.h\s*==\s*0\s*\)\s*(\{\s*)?return", txt))
-    return _IGNORE_EMPTY
+        m = re.search(r"Reset all flags to defaults.*?for \(i = 0; i < msg\.se\.nEncodings", txt, flags=re.S)
+        _RESET_EXTCLIP = bool(m and re.search(r"enableExtendedClipboard\s*=\s*FALSE", m.group(0)))
+    return _RESET_EXTCLIP
+
+
+def scaled_request_accepted(W, H, sw, sh, x, y, w, h):
+    """rectSwapIfLEAndClip for a scaled client: rfbScaledCorrection(scaledScreen -> screen) in IEEE
+    doubles, the uint16 clipping, and the empty-request test"""
+    def ceil_(v):
+        return float(int(v)) if float(int(v)) == v else float(int(v) + 1)
+    scw, sch = float(W) / float(sw), float(H) / float(sh)
+    x1, y1, w1, h1 = x * scw, y * sch, w * scw, h * sch
+    x2, y2 = float(int(x1)), float(int(y1))
+    X, Y, Wd, Ht = int(x2), int(y2), int(ceil_(w1 + (x1 - x2))), int(ceil_(h1 + (y1 - y2)))
+    if Wd == 0:
+        Wd += 1
+    if Ht == 0:
+        Ht += 1
+    if X + Wd > W:
+        Wd = W - X
+    if Y + Ht > H:
+        Ht = H - Y
+    X, Y, Wd, Ht = X & 0xFFFF, Y & 0xFFFF, Wd & 0xFFFF, Ht & 0xFFFF
+    if Wd > W - X:
+        Wd = (W - X) & 0xFFFF
+    if Wd > W - X:
+        return False
+    if Ht > H - Y:
+        Ht = (H - Y) & 0xFFFF
+    if Ht > H - Y:
+        return False
+    return Wd != 0 and Ht != 0
 
 
 def model_script(case_lines, ops):
@@ -740,8 +770,8 @@ def model_script(case_lines, ops):
             o = parse_kv(op)
             scr.update(pw=o.get("pw", 0), namelen=o.get("namelen", 5))
             M.append("screen " + " ".join("%s=%s" % kv for kv in scr.items()) +
-                     " dontconv=%d xvp=%d utf8=%d ledhook=%d ignoreempty=%d" % (o.get("dontconv", 0), o.get("xvp", 0), o.get("utf8", 0),
-                                                                                 o.get("ledhook", 0), int(source_ignores_empty_requests())))
+                     " dontconv=%d xvp=%d utf8=%d ledhook=%d resetextclip=%d" % (o.get("dontconv", 0), o.get("xvp", 0), o.get("utf8", 0),
+                                                                                  o.get("ledhook", 0), int(source_resets_extclip())))
             continue
         if name == "connect":
             hexs = [l.split(" ", 1)[1] for l in got if l.startswith("hs ")]
@@ -754,10 +784,10 @@ def model_script(case_lines, ops):
         if name == "setenc":
             pre.append(op)
         elif name == "fur" and scale is not None and scr is not None:
-            # rectSwapIfLEAndClip on a scaled client: x,y are mapped by rfbScaledCorrection (doubles)
-            x1 = int(float(int(p[2])) * (float(scr["w"]) / float(scale[0])))
-            y1 = int(float(int(p[3])) * (float(scr["h"]) / float(scale[1])))
-            pre.append(op + " acc=%d" % int(x1 <= scr["w"] and y1 <= scr["h"]))
+            # rectSwapIfLEAndClip on a scaled client: the request is mapped by rfbScaledCorrection
+            # (doubles, outside the Coq model), clipped, and dropped when empty (d5a464d)
+            pre.append(op + " acc=%d" % int(scaled_request_accepted(scr["w"], scr["h"], scale[0], scale[1],
+                                                                    int(p[2]), int(p[3]), int(p[4]), int(p[5]))))
         elif name in ("pixfmt", "fur"):
             pre.append(op)
         elif name == "reqgrid":
